@@ -18,4 +18,4 @@ Extraction "model.ml"
   step_evs judge judge_from ev_harmless ev_header_synced ev_index_after_sync dirty_of
   blob_open_scan dispose tool_validate_blob tool_recover index_open
   ch_new ch_step ch_offload ch_iter ch_mem ch_check cf_new cf_add range_bytes
-  track cf_answer cfs_answer consulted.
+  track cf_answer cfs_answer consulted cut_applies.
